@@ -11,7 +11,7 @@ COQ_HEADER = ("From Coq Require Import List ZArith NArith.\nFrom RV Require Impo
 RUN_EXPR = "Run.C14.run"
 RULE = ("expressions over an operand table (null, true, false, numbers 0/1/1px/0.5/-0/huge, quoted/unquoted/empty "
         "strings, empty/non-empty/bracketed lists, map, colour) built with not / and / or (chains of one operator, "
-        "`not` prefixes); operands are plain, or wrapped in a function that records an effect in a global, or replaced "
+        "`not` prefixes, and chains of 2-4 operators mixing `and` and `or`); operands are plain, or wrapped in a function that records an effect in a global, or replaced "
         "by a failing call / an undefined variable; evaluated inside a stylesheet that prints inspect(expr) and the "
         "effect log; quick = every `not X`, every `X op Y` over the table with every right-operand variant, plus random "
         "chains; distinct = distinct expression text; non-trivial = contains an effectful or failing operand or a `not`")
@@ -19,7 +19,7 @@ EXHAUSTIVE = {"quick": False, "thorough": False}
 TRUSTED = ["Spec/Truthiness.v: Sass truthiness and on-demand evaluation written from the Sass documentation",
            "the operand table gives for each source text its css::Value variant and its inspect() text; both are "
            "validated by the correspondence check (a wrong entry is a correspondence failure)"]
-ASSUMPTIONS = ["and/or chains are generated without parentheses and without mixing the two operators (precedence is property C15)"]
+ASSUMPTIONS = ["and/or chains are generated without parentheses; chains mixing `and` and `or` are judged on the grouping rsass parses (every sequence nests to the right: `a and b or c` = `a and (b or c)`, finding F22a of C15): C14 is about the evaluation of that tree, C15 about the grouping"]
 
 
 def bits(x):
@@ -89,10 +89,25 @@ def gen_cases(ctx, tier):
             if rng.random() < 0.25 and x[0] in ("eff", "leaf"):
                 x = ["not", x]
             items.append(x)
-        e = items[0]
-        for x in items[1:]:
-            e = [op, e, x]
+        # rsass nests every and/or sequence to the right, whatever the operators: a op1 (b op2 (c op3 d));
+        # half of the chains mix the two operators (grouping = the one rsass parses; precedence itself is C15)
+        ops = [op] * (k - 1) if rng.random() < 0.5 else [rng.choice(["and", "or"]) for _ in range(k - 1)]
+        e = items[-1]
+        for x, o in zip(reversed(items[:-1]), reversed(ops)):
+            e = [o, x, e]
         cases.append({"e": e})
+    # every mixed three-operand chain over the decisive operands, with an effectful and a failing last operand
+    small = [0, 1, 2, 3, 8]          # null true false 0 x
+    for o1 in ("and", "or"):
+        for o2 in ("and", "or"):
+            for i in small:
+                for j in small:
+                    for last in (["eff", 3, 4], ["boom", 3]):
+                        cases.append({"e": [o1, ["eff", 1, i], [o2, ["eff", 2, j], last]]})
+    for (o1, o2, o3) in (("and", "or", "and"), ("or", "and", "or"), ("and", "and", "or"), ("or", "or", "and")):
+        for i in small:
+            for j in small:
+                cases.append({"e": [o1, ["leaf", i], [o2, ["eff", 2, j], [o3, ["eff", 3, rng.choice(small)], ["eff", 4, 4]]]]})
     return cases
 
 
